@@ -17,7 +17,8 @@ for d in sorted(glob.glob(V + '/seeded/*/')):
     st = 'caught' if m.get('caught_by_checks') else ('superseded by a fix' if m.get('applies_to_repo_head') is False else '**missed**')
     if st == 'caught' and m.get('applies_to_repo_head') is False:
         st = 'caught (no longer applies: superseded by a later fix)'
-    rnd = 'round 2' if sid.startswith('r2-') else ('round 3' if sid.startswith('r3-') else 'round 1')
+    mr = re.match(r'r(\d+)-', sid)
+    rnd = 'round ' + mr.group(1) if mr else 'round 1'
     s = stats.setdefault(rnd, [0, 0])
     if st != 'superseded by a fix':
         s[1] += 1
